@@ -59,9 +59,10 @@ CurHighest(e) == (AtEnd(e) /\ ~e.seen.unowned /\ ~e.stripped) => Highest(e)
 \* ---- XR side: APIRevisionFetcher.Fetch
 IsFetch(e) == e.ev = "fetch"
 \* Manual: the referenced revision is returned and stays referenced
+\* (also when the pinned revision cannot be read at that moment - e.fetch.hidden: the XR keeps its reference and gets an error)
 Manual(e) == (IsFetch(e) /\ e.fetch.pol = "Manual" /\ e.fetch.pinned # "none") =>
                /\ e.fetch.ref = e.fetch.pinned
-               /\ IF \E r \in Revs(e) : r.c = e.fetch.pinned THEN e.fetch.got = e.fetch.pinned ELSE e.fetch.got = "error"
+               /\ IF (\E r \in Revs(e) : r.c = e.fetch.pinned) /\ ~e.fetch.hidden THEN e.fetch.got = e.fetch.pinned ELSE e.fetch.got = "error"
 \* Automatic: the highest-numbered revision controlled by the Composition that matches the selector
 Eligible(e) == {r \in Revs(e) : r.ctrl = "comp" /\ (e.fetch.sel # "none" => r.lab = e.fetch.sel)}
 Automatic(e) == (IsFetch(e) /\ e.fetch.pol = "Automatic") =>
